@@ -273,7 +273,7 @@ def run_tour(facet: str, seed: int, power: PowerRecorder, links: LinkRecorder, s
     from . import tour
 
     g = tour.graph(facet)
-    eps, st = tour.tour(g, random.Random(seed), episode_len=300)
+    eps, st = tour.tour(g, random.Random(seed), episode_len=300, level="coarse")
     chk.cov[f"tour_{facet}"] = st
     cfg, idx = tour.scenario(facet)
     env = PrimaiteGymEnv(env_config=cfg)
